@@ -108,6 +108,10 @@ def dict_diff(want: dict, got: dict) -> dict:
             for k in sorted(set(want) | set(got)) if want.get(k, '<absent>') != got.get(k, '<absent>')}
 
 
+_REPORTED: Dict[str, int] = {}
+MAX_FULL_REPORTS = 6
+
+
 class CaseCtx:
     """Per-case reporter: one violation per mechanism key and phase."""
 
@@ -123,6 +127,12 @@ class CaseCtx:
         if (key, phase) in self.seen:
             return
         self.seen.add((key, phase))
+        # The monitor keeps the first 50 violations only: report each mechanism in full a few times per process so that
+        # every mechanism keeps a witness and a replay file; later repeats are only counted.
+        _REPORTED[key] = _REPORTED.get(key, 0) + 1
+        if _REPORTED[key] > MAX_FULL_REPORTS:
+            self.run.count(f'repeats[{key}]')
+            return
         self.run.violation(f'[{phase}] {what}' if phase else what, witness=witness, key=key, engine=self.engine,
                            case=self.case)
 
